@@ -275,3 +275,10 @@ Theorem C05_example_replay :
   stores_agree o = true /\ r_start o = 4 /\ r_replay o = RcReplayed /\ no_conflict o = true /\ length (r_sigs o) = 3.
 Proof. vm_compute. repeat split; reflexivity. Qed.
 Print Assumptions C05_example_replay.
+
+(** The decision-critical functions of the anchored code have exactly the decisions the source tie knows about
+    (go2coq manifests, regenerated from /repo on every check; statement in SourceManifest.v). *)
+From Kardia Require Import C05.SourceManifest.
+Theorem C05_source_manifest : C05_source_manifest_statement.
+Proof. exact C05_source_manifest_proof. Qed.
+Print Assumptions C05_source_manifest.
